@@ -271,7 +271,9 @@ func (e *AttachExpression) EndPosition(memoryGauge common.MemoryGauge) Position 
 }
 
 func (*AttachExpression) precedence() expressionPrecedence {
-	return expressionPrecedenceLiteral
+	// NOTE: the base expression extends as far as possible,
+	// so an attach expression which is an operand must be parenthesized
+	return expressionPrecedenceTernary
 }
 
 func (e *AttachExpression) MarshalJSON() ([]byte, error) {
